@@ -254,6 +254,14 @@ def ddmin(items, failing, budget=200):
     n = 2
     cur = list(items)
     calls = 0
+    _raw = failing
+
+    def failing(cand):
+        # shrinking is best effort: a candidate on which the judge itself trips is simply not taken
+        try:
+            return bool(_raw(cand))
+        except Exception:
+            return False
     while len(cur) >= 2 and calls < budget:
         chunk = max(1, len(cur) // n)
         reduced = False
